@@ -236,6 +236,31 @@ def _work(task):
             acc.count("pairs")
             for k, d in check_like_relation(ta, tb):
                 acc.violation(f"{k}|{ta}|{tb}", {"kind": "pair", "a": ta, "b": tb}, d)
+    elif kind == "bigfactor":
+        # semiprimes and prime powers far above the enumerated range (trial division up to 10^5 at most)
+        primes = [1009, 1013, 10007, 10009, 99989, 99991]
+        big = [p * q for p in primes for q in primes if p <= q] + [2 ** 20, 3 ** 12, 2 ** 10 * 1009, 6 * 10007 * 5]
+        for n in big:
+            acc.count("factor_tables")
+            f = None
+            try:
+                from mathy_core.util import factor
+                f = factor(n)
+            except Exception as e:  # noqa
+                acc.violation(f"factor-raises:{type(e).__name__}|n={n}", {"kind": "bigfactor", "n": n}, str(n))
+                continue
+            want = set()
+            i = 1
+            while i * i <= n:
+                if n % i == 0:
+                    want.add(i)
+                    want.add(n // i)
+                i += 1
+            keys = {int(k) for k in f}
+            bad = any(int(k) * int(v) != n for k, v in f.items())
+            if keys != want or bad:
+                acc.violation(f"factor-table-wrong-divisors|n={n}", {"kind": "bigfactor", "n": n},
+                              f"factor({n}) lists {sorted(keys)[:12]}..., expected {sorted(want)[:12]}...")
     elif kind == "factor":
         for n in range(task[1], task[2]):
             acc.count("factor_tables")
@@ -269,6 +294,7 @@ def run(tier, seed):
     tasks = [("multisets", lo, hi) for lo, hi in par.chunks(len(ms), 64)]
     tasks += [("triples",)]
     tasks += [("factor", lo + 1, hi + 1) for lo, hi in par.chunks(NF, 32)]
+    tasks += [("bigfactor",)]
     tasks += [("pred", lo, hi) for lo, hi in par.chunks(len(texts), 128)]
     k = seed % len(tasks)
     tasks = tasks[k:] + tasks[:k]
@@ -303,5 +329,8 @@ def replay(case):
         return [(f"{a}|{case['a']}|{case['b']}", d) for a, d in check_like_relation(case["a"], case["b"])]
     if k == "factor":
         return [(f"{a}|n={case['n']}", d) for a, d in check_factor(case["n"])]
+    if k == "bigfactor":
+        a = _work(("bigfactor",))
+        return [(c, e["examples"][0]["detail"]) for c, e in a.viol.items() if c.endswith(f"n={case['n']}")]
     tree = parse(case["text"])
     return [(f"{a}|{RW.pat(SG.sig(tree), 2)}", d) for a, d in check_predicates(tree)]
